@@ -84,6 +84,15 @@ Theorem c10_rewrite_exact : forall bs pos p,
          nth i bs' 0 = if (pos <=? Z.of_nat i) && (Z.of_nat i <? pos + zlen p) then nth (Z.to_nat (Z.of_nat i - pos)) p 0 else nth i bs 0)
   /\ (pos < 0 \/ zlen bs < pos -> bstep bs (XReWrite pos p) = (OPanic, bs)).
 Proof. exact rewrite_exact. Qed.
+(* the argument may be a slice of the buffer's own unread bytes (moving a body in place to make room for a header): the
+   addressed bytes become the values that slice had at the call, whether or not source and destination overlap *)
+Theorem c10_rewrite_from_self : forall bs pos from m,
+  0 <= pos <= zlen bs -> (from + m <= length bs)%nat ->
+  exists bs', bstep bs (XReWrite pos (firstn m (skipn from bs))) = (ODone, bs') /\ length bs' = length bs /\
+    forall i, (i < length bs)%nat ->
+      nth i bs' 0 = if (pos <=? Z.of_nat i) && (Z.of_nat i <? pos + Z.of_nat m)
+                    then nth (from + Z.to_nat (Z.of_nat i - pos)) bs 0 else nth i bs 0.
+Proof. exact rewrite_from_self. Qed.
 Theorem c10_rewrite_u32 : forall bs pos v, 0 <= v < 2 ^ 32 ->
   bstep bs (XReWriteU32 pos v) = bstep bs (XReWrite pos [v mod 256; (v / 256) mod 256; (v / 65536) mod 256; (v / 16777216) mod 256]).
 Proof. exact rewrite_u32_is_rewrite. Qed.
@@ -195,6 +204,7 @@ Print Assumptions c10_signed_reinterpretation.
 Print Assumptions c10_limit_write_refused.
 Print Assumptions c10_limit_read_refused.
 Print Assumptions c10_rewrite_exact.
+Print Assumptions c10_rewrite_from_self.
 Print Assumptions c10_rewrite_u32.
 Print Assumptions c10_decode_total.
 Print Assumptions c10_history_shapes.
